@@ -281,6 +281,33 @@ def producer_engine_class(env):
     return ProducerEngine
 
 
+class _Swallow(logging.Handler):
+    """formats every record (lazily formatted arguments are evaluated as with a real handler), keeps nothing"""
+
+    def emit(self, record):
+        try:
+            record.getMessage()
+        except Exception:  # noqa
+            pass
+
+
+def ambient_logging(level):
+    """ambient setting a user may change: the log level (None: logging disabled, the default of this harness)"""
+    if not level:
+        return lambda: None
+    root = logging.getLogger()
+    prev = (logging.root.manager.disable, root.level, list(root.handlers))
+    logging.disable(logging.NOTSET)
+    root.handlers[:] = [_Swallow()]
+    root.setLevel({"debug": 1, "info": logging.INFO, "warning": logging.WARNING}[level])
+
+    def restore():
+        root.handlers[:] = prev[2]
+        root.setLevel(prev[1])
+        logging.disable(prev[0])
+    return restore
+
+
 class Drv:
     """Runs one scripted case on the real RepeatingEngine."""
 
@@ -733,6 +760,7 @@ class Drv:
         self.monitor_exited = False
         prev_disable = logging.root.manager.disable
         logging.disable(logging.CRITICAL)
+        restore_logging = ambient_logging(self.case.get("log"))
         try:
             for cid in self.cfg.get("pre", []):
                 self.output(cid)
@@ -755,12 +783,14 @@ class Drv:
             except StopScript:
                 pass
         finally:
+            restore_logging()
             logging.disable(prev_disable)
             reactivex.scheduler.ThreadPoolScheduler = saved_tps
             (E.datetime, reactivex.interval, reactivex.timer, M.CreateMonitor, M.threading, M.time,
              E.Engine.enginePoolScheduler, E.Engine.triggerPoolScheduler, E.Engine.taskPoolScheduler) = saved
         fo = self.lastOut
-        execs = [{"afterFinal": (fo is None or t > fo), "avail": not m} for t, _o, m, _t in self.launches]
+        execs = [{"afterFinal": (fo is None or t > fo), "avail": not m, "started": task is not None}
+                 for t, _o, m, task in self.launches]
         return {"snaps": self.snaps, "execs": execs, "stopped": self.monitor_exited, "final": self.snapshot(),
                 "info": self.info, "cause": self.cancel_cause,
                 "missing": [m for _t, _o, m, _k in self.launches], "any_output": self.anyOut,
@@ -798,6 +828,22 @@ def oracle(case, out):
         elif out["final"]["consume"] and out["any_output"] and not any(e["afterFinal"] for e in out["execs"]):
             fails.append(("stopped-without-observing-final-output",
                           {"launches": len(out["execs"]), "retries": retries}))
+    # 2''. "It then stops on its own ...: after the first such execution that succeeds, otherwise when its configured
+    #    retries are used up or the configured kill delay expires": a stop decided by the engine itself (not the kill
+    #    delay) while retries are LEFT is the stop after a success - the poll that decides it must itself have STARTED
+    #    an execution (the task generator returned a task: a launch that raises is an attempt, no execution) that began
+    #    after the producers' last output and exited 0.  Whatever an earlier poll left behind does not count.
+    if out["cause"] == "self":
+        k = [j for j, i in enumerate(out["info"]) if "self_stop_fin" in i][0]
+        stop = out["info"][k]
+        left = out["snaps"][k]["retries"]
+        if stop.get("self_stop_truth", stop["self_stop_fin"]) and left > 0:
+            last = out["execs"][-1] if (stop.get("executed") and out["execs"]) else None
+            if not (last is not None and last.get("started", True) and last["afterFinal"] and stop.get("rc0")):
+                fails.append(("stopped-with-retries-left-without-successful-execution-after-final-output",
+                              {"poll": k, "retries_left": left, "launch_in_this_poll": bool(stop.get("executed")),
+                               "task_started": None if last is None else last.get("started"),
+                               "exit_0": stop.get("rc0"), "launches": len(out["execs"])}))
     # 2'. the notification reaches the engine when all producers are finished and not before
     if out.get("early") is not None:
         fails.append(("notified-before-all-producers-finished",
@@ -850,11 +896,24 @@ def gen_prods(rng):
     return prods
 
 
+def leftover_style(rng, iters, fin_iter):
+    """histories in which what an EARLIER poll left behind (its task, its exit code) differs from what happens to the
+    first attempts after the producers finished: executions before the notification all succeed (or all fail), the
+    first 1-3 launches after it raise / fail / succeed"""
+    before = rng.choice(["ok", "ok", "ok", "fail"])
+    for it in iters[:max(fin_iter, 0)]:
+        it["outcome"] = before
+    k = rng.randint(1, 3)
+    after = rng.choice(["raise", "raise", "fail", "ok"] if before == "ok" else ["ok", "raise"])
+    for it in iters[max(fin_iter, 0):max(fin_iter, 0) + k]:
+        it["outcome"] = after
+
+
 def gen_case(rng, tier):
     prods = gen_prods(rng)
     ids = sorted({p["id"] for p in prods})
     same_ids = sorted({p["id"] for p in prods if p["same"]})
-    cfg = {"retries": rng.choice([None, 0, 1, 1, 2, 3, 3, 5]),
+    cfg = {"retries": rng.choice([None, 0, 1, 1, 2, 3, 3, 5] if rng.random() < 0.96 else [10, 11]),
            "dieAfter": rng.random() < 0.3,
            "prods": prods,
            "pre": [k for k in ids if rng.random() < (0.15 if k in same_ids else 0.6)]}
@@ -875,6 +934,8 @@ def gen_case(rng, tier):
     if rng.random() < 0.9:
         hi = max(0, n - r - 3)
         fin_pos = place("fin", 0, rng.randint(0, hi))
+    if fin_pos is not None and rng.random() < 0.2:
+        leftover_style(rng, iters, fin_pos[0])
     # outputs strictly before the notification; every same-stage producer starts writing at a moment of its
     # own (staggered producers) or never writes at all
     writers = [k for k in (same_ids or ids) if rng.random() < 0.85]
@@ -912,7 +973,10 @@ def gen_case(rng, tier):
         place("kill", 0, n - 1)
     for _ in range(rng.choice([0, 0, 0, 1, 2])):
         place("adv", 0, n - 1, slots=("gap", "gap", "s0", "s4"))
-    return {"cfg": cfg, "iters": iters}
+    case = {"cfg": cfg, "iters": iters}
+    if rng.random() < 0.1:
+        case["log"] = rng.choice(["debug", "debug", "info", "warning"])     # ambient setting: log records really handled
+    return case
 
 
 
@@ -1037,6 +1101,8 @@ def gen_case_composed(rng, tier, worlds):
         fin_pos = None                 # some producer never finishes: never notified
     else:
         fin_pos = (-1, 0, 0)           # notified at stage-in
+    if fin_pos is not None and rng.random() < 0.2:
+        leftover_style(rng, iters, fin_pos[0])
     if cfg["dieAfter"] and fin_pos is not None and rng.random() < 0.7:
         lo = max(fin_pos[0], 0)
         i = rng.randint(lo, min(n - 1, lo + 3))
@@ -1047,7 +1113,10 @@ def gen_case_composed(rng, tier, worlds):
         iters[rng.randint(0, n - 1)].setdefault(rng.choice(SLOTS), []).append("kill")
     for _ in range(rng.choice([0, 0, 0, 1, 2])):
         iters[rng.randint(0, n - 1)].setdefault(rng.choice(("gap", "gap", "s0", "s4")), []).append("adv")
-    return {"cfg": cfg, "world": world, "pre": pre, "iters": iters}
+    case = {"cfg": cfg, "world": world, "pre": pre, "iters": iters}
+    if rng.random() < 0.1:
+        case["log"] = rng.choice(["debug", "debug", "info", "warning"])
+    return case
 
 
 def events_in_order(case):
@@ -1105,6 +1174,17 @@ CORPUS = [
     # producers of an earlier stage only: can consume from the start
     {"cfg": {"retries": 2, "pre": [], "prods": [{"id": 0, "same": False, "rep": False}]},
      "iters": [{}, {"gap": ["fin"]}, {}, {}, {}]},
+    # an execution succeeds while the producer still runs; final output + notification; the first launch after it
+    # fails at submission time (the generator raises): a failed attempt - the earlier success does not count, the
+    # engine keeps going until an execution started after the final output (here: after the 20 s override)
+    {"cfg": {"retries": 3, "prods": P1, "pre": []},
+     "iters": [{"s0": ["out:0"]}, {"gap": ["out:0", "fin"], "outcome": "raise"}, {}, {"gap": ["adv"]}, {}, {}]},
+    # the same with a producer that does not repeat (every poll launches): raise, raise, then a task that fails, then ok
+    {"cfg": {"retries": 5, "prods": P1N, "pre": [0]},
+     "iters": [{}, {"s3": ["fin"]}, {"outcome": "raise"}, {"outcome": "raise"}, {"outcome": "fail"}, {}, {}, {}]},
+    # the earlier task FAILED, the first launch after the notification raises, retries run out
+    {"cfg": {"retries": 1, "prods": P1N, "pre": [0]},
+     "iters": [{"outcome": "fail"}, {"gap": ["fin"], "outcome": "raise"}, {"outcome": "raise"}, {}, {}]},
 ]
 
 
@@ -1146,6 +1226,10 @@ CORPUS_COMPOSED = [
     {"cfg": {"retries": 3, "rep": [0, 1], "pre": []}, "world": W_RESTART, "pre": ["stagein"],
      "iters": [{"s0": ["out:1"]}, {"gap": ["out:1"]}, {"s3": ["out:1"]}, {"gap": ["out:0"]}, {"gap": ["pf:1", "out:0", "pf:0"]},
                {}, {}, {}]},
+    # the observer succeeds once while A still runs; A writes its final output and is finished; the next launch raises
+    {"cfg": {"retries": 3, "rep": [0, 1], "pre": [1]}, "world": W_RESTART, "pre": ["pf:1", "stagein"],
+     "iters": [{"s0": ["out:0"]}, {"gap": ["out:0", "pf:0"], "outcome": "raise"}, {"gap": ["adv"]}, {}, {}, {}],
+     "log": "debug"},
 ]
 
 
@@ -1210,6 +1294,8 @@ def case_fails(case, slug):
 
 
 def shrink(what, case):
+    if "sequence" in case:
+        return case
     try:
         return _shrink(what, case)
     finally:
@@ -1347,6 +1433,17 @@ def check_cases(ctx, cases):
         if any(i["error"] for i in out["info"]):
             tags.append("action-raised:" + [i["error"] for i in out["info"] if i["error"]][0])
         tags.append("launches:%d" % min(len(out["execs"]), 6))
+        if case.get("log"):
+            tags.append("ambient-log-level:" + case["log"])
+        seen_ok = False
+        nl = 0
+        for i in out["info"]:
+            if i.get("executed"):
+                e = out["execs"][nl] if nl < len(out["execs"]) else None
+                nl += 1
+                if e is not None and not e["started"] and i.get("truth_at_begin", i["fin_at_begin"]):
+                    tags.append("launch-raises-after-producers-finished" + ("/after-an-earlier-success" if seen_ok else ""))
+                seen_ok = seen_ok or bool(i.get("rc0"))
         tags += world_tags(case, out) if "world" in case else ["mode:direct"]
         ctx.case(case, nontrivial=nontrivial(case, out), tags=tags)
         for what, detail in oracle(case, out):
@@ -1371,6 +1468,8 @@ def check_cases(ctx, cases):
                         [e["afterFinal"] for e in m["execs"]], [e["afterFinal"] for e in out["execs"]])
             ctx.compare("each launch: every same-stage producer had output (harness record)? == Exec.avail", case,
                         [e["avail"] for e in m["execs"]], [e["avail"] for e in out["execs"]])
+            ctx.compare("each launch: did the task generator return a task (an execution was started)? == Exec.started",
+                        case, [e["started"] for e in m["execs"]], [e["started"] for e in out["execs"]])
             mc = m["cause"]
             ic = {"self": "self", "external": "external", "killDelay": "killDelay", None: None}.get(out["cause"], out["cause"])
             ctx.compare("who set the cancel event", case,
@@ -1397,6 +1496,107 @@ def check_cases(ctx, cases):
             ctx.compare(rel, case, {k: m[k] for k in keys}, {k: f[k] for k in keys})
 
 
+def observed(case):
+    """what the implementation does on a case, as a canonical JSON string"""
+    try:
+        out = run_impl(case)
+    except RealCodeRaised as rc:
+        out = {"raised": rc.slug()}
+    return json.dumps(out, sort_keys=True, default=str)
+
+
+def check_order_independence(ctx, suite, orders, seen):
+    """family: process-level / class-level state shared between independent engines / components / experiments
+    (class attributes mutated in place, module-level caches keyed by names).  The cases of the suite share component
+    and producer names with different roles; each is run several times in this process, in different orders and after
+    all the unrelated cases: the implementation's answers must be identical every time."""
+    for order in orders:
+        for k in order:
+            ans = observed(suite[k])
+            if k not in seen:
+                seen[k] = ans
+            elif ans != seen[k]:
+                ctx.fail("result-depends-on-earlier-cases",
+                         {"sequence": [suite[j] for j in order], "probe": order.index(k)},
+                         {"first_answer": json.loads(seen[k]), "later_answer": json.loads(ans)})
+
+
+CHILD_MARK = "C13-CHILD-ANSWERS "
+
+
+def order_suite():
+    return [copy.deepcopy(normalise(c)) for c in CORPUS + CORPUS_COMPOSED]
+
+
+def spawn_child(order, hashseed=None):
+    """a fresh interpreter that runs the cases `order` of the suite (nothing else ran before them in that process)"""
+    import subprocess
+    import sys
+    env = dict(os.environ)
+    if hashseed is not None:
+        env["PYTHONHASHSEED"] = str(hashseed)
+    return subprocess.Popen([sys.executable, os.path.abspath(__file__), "--order-child", json.dumps(order)],
+                            stdout=subprocess.PIPE, stderr=subprocess.DEVNULL, env=env, text=True)
+
+
+def collect_child(proc):
+    from harness import common
+    try:
+        out, _ = proc.communicate(timeout=300)
+    except Exception as exc:  # noqa
+        proc.kill()
+        raise common.InfraError("C13 child process: %s" % exc)
+    for line in out.splitlines():
+        if line.startswith(CHILD_MARK):
+            return {int(k): v for k, v in json.loads(line[len(CHILD_MARK):]).items()}
+    raise common.InfraError("C13 child process gave no answers: %s" % out[-500:])
+
+
+def _child_main(order_json):
+    import sys
+    order = json.loads(order_json)
+    setup(None)
+    suite = order_suite()
+    try:
+        ans = {str(k): observed(suite[k]) for k in order}
+    finally:
+        Worlds.cleanup()
+    sys.stdout.write("\n" + CHILD_MARK + json.dumps(ans) + "\n")
+    sys.stdout.flush()
+
+
+def compare_with_child(ctx, suite, order, answers, seen, slug, extra):
+    for k in order:
+        if seen[k] != answers[k]:
+            ctx.fail(slug, dict({"sequence": [suite[j] for j in order], "probe": order.index(k)}, **extra),
+                     {"answer_in_this_process": json.loads(seen[k]), "answer_in_fresh_process": json.loads(answers[k])})
+
+
+def replay_sequence(ctx, case):
+    if case.get("fresh_process"):
+        suite = order_suite()
+        canon = [json.dumps(c, sort_keys=True) for c in suite]
+        idx = [canon.index(json.dumps(normalise(c), sort_keys=True)) for c in case["sequence"]]
+        pk = idx[case["probe"]]
+        a = collect_child(spawn_child(idx, case.get("hashseed")))
+        b = collect_child(spawn_child([pk] + [k for k in idx if k != pk]))
+        ctx.case(case, nontrivial=False, tags=["order-independence"])
+        if a[pk] != b[pk]:
+            ctx.fail("result-depends-on-hash-seed" if case.get("hashseed") is not None else
+                     "result-depends-on-earlier-cases", case,
+                     {"answer": json.loads(a[pk]), "answer_when_run_first": json.loads(b[pk])})
+        return
+    probe = case["sequence"][case["probe"]]
+    first = observed(probe)
+    for c in case["sequence"]:
+        observed(c)
+    again = observed(probe)
+    ctx.case(case, nontrivial=False, tags=["order-independence"])
+    if first != again:
+        ctx.fail("result-depends-on-earlier-cases", case,
+                 {"first_answer": json.loads(first), "later_answer": json.loads(again)})
+
+
 def setup(ctx):
     from harness import detsim
     detsim.install()      # before experiment.runtime.* is imported for the first time
@@ -1410,7 +1610,13 @@ def run(ctx):
                 "before run() - read by the real Engine.canConsume and the real Job.producersHaveOutputSinceDate) "
                 "x 3..21 polls with task outcomes ok/fail/generator-raises and environment events (producers finished, "
                 "new output of one given producer (staggered producers: each starts writing at its own moment or never), "
-                "external kill, kill-delay timer, >20 s wait) placed at 6 interleaving points of each poll; "
+                "external kill, kill-delay timer, >20 s wait) placed at 6 interleaving points of each poll; a style in which "
+                "what an earlier poll left behind differs from the first attempts after the notification (executions succeed "
+                "while a producer runs, then the first 1-3 launches after the notification raise / fail); repeatRetries 10/11 "
+                "now and then; 10% of the cases under an ambient log level debug/info/warning with records really handled; "
+                "the corpus cases are also run first thing in the process, again after all other cases (backwards, shuffled, "
+                "forwards) and in two fresh interpreters (backwards; forwards under another hash seed) with identical answers "
+                "required; "
                 "direct cases: the harness calls notify_all_producers_finished; composed cases: generated workflows "
                 "(1-3 stages, names re-used across stages, observer with 0-5 references incl. several to one producer "
                 "and to earlier stages in any position, other components) whose real ComponentStates deliver the "
@@ -1435,6 +1641,9 @@ def run(ctx):
         "replaced by the script; canConsume is driven with delay=0 only (the only call RepeatingEngine makes)",
         "a stop caused by the configured kill delay is treated like a cancellation from outside for the "
         "'final output observed' clause (it is a forced stop by configuration)",
+        "a launch whose task generator raises counts as an ATTEMPT (it uses up a retry; with every attempt failing the "
+        "engine may stop when the retries are used up) but not as a started execution: a stop with retries left must be "
+        "decided by a poll that itself started an execution after the producers' last output which exited 0",
     ]
     ctx.trusted.append("C13: stub Job/Task of the engine (producer instances with stub working directories: output / "
                        "outputSinceDate / outputBeforeDate from the harness's record of the out events), fake clock, synchronous stand-in for the monitor thread and rx "
@@ -1450,9 +1659,28 @@ def run(ctx):
     nw, nc = (60, 1200) if ctx.tier == "quick" else (600, 20000)
     worlds = [gen_world(rng) for _ in range(nw)]
     cases += [copy.deepcopy(c) for c in CORPUS_COMPOSED] + [gen_case_composed(rng, ctx.tier, worlds) for _ in range(nc)]
+    suite = order_suite()
+    ks = list(range(len(suite)))
+    sh = list(ks)
+    rng.shuffle(sh)
+    first_answers = {}
+    # two fresh interpreters run the suite meanwhile: backwards (whatever is cached by name is filled by a case of
+    # another role there), and forwards under another hash seed
+    other_seed = (int(os.environ.get("PYTHONHASHSEED", "0") or 0) + 1 + rng.randrange(1000)) % 4294967295
+    children = [spawn_child(ks[::-1]), spawn_child(ks, other_seed)]
     try:
+        check_order_independence(ctx, suite, [ks], first_answers)          # first thing in the process
         check_cases(ctx, cases)
+        check_order_independence(ctx, suite, [ks[::-1], sh, ks], first_answers)   # after everything else
+        compare_with_child(ctx, suite, ks[::-1], collect_child(children[0]), first_answers,
+                           "result-depends-on-earlier-cases", {"fresh_process": True})
+        compare_with_child(ctx, suite, ks, collect_child(children[1]), first_answers,
+                           "result-depends-on-hash-seed", {"fresh_process": True, "hashseed": other_seed})
+        ctx.tag("order-independence-suite-runs", 6 * len(suite))
     finally:
+        for ch in children:
+            if ch.poll() is None:
+                ch.kill()
         Worlds.cleanup()
 
 
@@ -1461,6 +1689,25 @@ def replay(ctx, doc):
     ctx.classifiers = CLASSIFIERS
     case = doc.get("input") or doc["no_longer_checks"][-1]["input"]
     try:
-        check_cases(ctx, [case])
+        if "sequence" in case:
+            replay_sequence(ctx, case)
+        else:
+            check_cases(ctx, [case])
     finally:
         Worlds.cleanup()
+
+
+if __name__ == "__main__":
+    # child mode of the order-independence check (see spawn_child)
+    import sys
+    _here = os.path.dirname(os.path.dirname(os.path.abspath(__file__)))
+    _repo = os.environ.get("ST4SD_REPO", "/repo")
+    for _p in (_here, _repo, os.path.join(_repo, "python")):
+        sys.path.insert(0, _p)
+    import warnings
+    warnings.filterwarnings("ignore")
+    if len(sys.argv) == 3 and sys.argv[1] == "--order-child":
+        from harness import c13 as _me      # one module object (harness.c13), not __main__ + harness.c13
+        _me._child_main(sys.argv[2])
+        sys.stdout.flush()
+        os._exit(0)
